@@ -6,6 +6,7 @@
 package h_c16
 
 import (
+	"os"
 	"encoding/json"
 	"fmt"
 	"reflect"
@@ -769,7 +770,7 @@ func ip(i int) *int       { return &i }
 func i64(i int64) *int64  { return &i }
 func bp(b bool) *bool     { return &b }
 
-var special = []string{"plain", "юникод ✓", "a: b", "#x", "null", "123", "true", "it's \"quoted\"", "line1\nline2", "{{.request.r1.postprocessor.token}}", "${x} and %{y}", "  padded  ", "", "~", "[1, 2]", "{a: 1}", "- x", "back\\slash", "tab\there", "1e3", "0x10", "yes"}
+var special = []string{"plain", "юникод ✓", "a: b", "#x", "null", "123", "true", "it's \"quoted\"", "line1\nline2", "{{.request.r1.postprocessor.token}}", "${x} and %{y}", "  padded  ", "", "~", "[1, 2]", "{a: 1}", "- x", "back\\slash", "tab\there", "1e3", "0x10", "yes", "cr\r\nlf", "${env:ZV_C16_VAR}-x"}
 
 func subsets(n int) [][]bool {
 	var out [][]bool
@@ -998,6 +999,7 @@ func TestWorker(t *testing.T) {
 		t.Skip("no VERIF_SPEC")
 	}
 	defer out.Save()
+	os.Setenv("ZV_C16_VAR", "resolved")
 	coreimport.Import(memfs)
 	phttpimport.Import(memfs)
 	grpcimport.Import(memfs)
